@@ -9,8 +9,14 @@ from . import msgs as M
 from .build import E, T
 
 # stub S10: timestamps are concrete strings chosen by symbolic index
-STAMPS = ['2022-03-04T12:29:45', '2022-11-16T13:00', '2023-02-01T00:00:07']
-STAMP_VALUES = [datetime(2022, 3, 4, 12, 29, 45), datetime(2022, 11, 16, 13, 0, 0), datetime(2023, 2, 1, 0, 0, 7)]
+from dateutil.tz import tzoffset, tzutc
+# indexes 0..2 carry no zone designator, 3..4 do (an aware roEdStart next to naive story stamps and the reverse are
+# both legal documents: nothing in the library may subtract or order them)
+STAMPS = ['2022-03-04T12:29:45', '2022-11-16T13:00', '2023-02-01T00:00:07', '2022-03-04T12:29:45+01:00',
+          '2022-11-16T13:00:00Z']
+STAMP_VALUES = [datetime(2022, 3, 4, 12, 29, 45), datetime(2022, 11, 16, 13, 0, 0), datetime(2023, 2, 1, 0, 0, 7),
+                datetime(2022, 3, 4, 12, 29, 45, tzinfo=tzoffset(None, 3600)),
+                datetime(2022, 11, 16, 13, 0, 0, tzinfo=tzutc())]
 
 # timing variants of a story: which of StoryDuration / TextTime / MediaTime exist
 VARIANTS = {
@@ -74,11 +80,12 @@ def timing_cell(P, A):
         else:
             stories.append(B.story(ids[i], slug='s', timing=tb_, body=[T('p', 'x')]))
     ed = P.get('edstart', 'present')
+    edi = P.get('edstamp', 0)
     lead = 3 if ed in ('present', 'blank') else 2
-    ro = B.running_order(stories, lead=lead, edstart=STAMPS[0] if ed == 'present' else None)
+    ro = B.running_order(stories, lead=lead, edstart=STAMPS[edi] if ed == 'present' else None)
     if ed == 'after':
         # roEdStart added later by a roMetadataReplace: it sits after the stories
-        B.rc_of(ro).append(T('roEdStart', STAMPS[0]))
+        B.rc_of(ro).append(T('roEdStart', STAMPS[edi]))
     if P.get('pre_op'):
         # the relations must hold again after a merge that reorders the stories
         out0 = B.merge(ro, M.ea_story_swap(ids[0], ids[N - 1]))
@@ -88,7 +95,7 @@ def timing_cell(P, A):
         order = [N - 1] + list(range(1, N - 1)) + [0] if N > 1 else [0]
     else:
         order = list(range(N))
-    ro_start = STAMP_VALUES[0] if ed in ('present', 'after') else None
+    ro_start = STAMP_VALUES[edi] if ed in ('present', 'after') else None
     variants, started, ended = list(variants), list(started), list(ended)
     sig = check_timing(ro, order, variants, sd, tt, mt_, started, ended, ro_start, N)
     r = P.get('resend')
@@ -222,7 +229,7 @@ def accessor_cell(P, A):
         if has_item2:
             body.append(B.item('second'))
         body.append(T('p', None))
-        st = STAMPS[1] if P.get('started', [None] * N)[i] else None
+        st = STAMPS[P.get('ststamp', 1)] if P.get('started', [None] * N)[i] else None
         stories.append(E('story', T('storyID', ids[i]), opt(has_slug, T('storySlug', slug)),
                          timing(variants[i], 10 * i, 3 * i, 4 * i, started=st), *body))
         spec.append({'id': ids[i], 'slug': slug if has_slug else None,
@@ -233,7 +240,7 @@ def accessor_cell(P, A):
                                'note': note_t if f('in%d' % i) else None},
                      'duration': spec_duration(variants[i], 10 * i, 3 * i, 4 * i)})
     ed = P.get('edstart', 'present')
-    ro = B.running_order(stories, lead=3 if ed != 'absent' else 2, edstart=STAMPS[0] if ed == 'present' else None,
+    ro = B.running_order(stories, lead=3 if ed != 'absent' else 2, edstart=STAMPS[P.get('edstamp', 0)] if ed == 'present' else None,
                          gap=P.get('gap'), trail=P.get('trail', 0))
     step = P.get('pre_op')
     if step == 'roreplace':
@@ -295,13 +302,13 @@ def accessor_cell(P, A):
                 break
     if sig is None:
         ed_ = P.get('edstart', 'present')
-        if not same(got['start'], STAMP_VALUES[0] if ed_ == 'present' else None):
+        if not same(got['start'], STAMP_VALUES[P.get('edstamp', 0)] if ed_ == 'present' else None):
             sig = 'ro-start-differs-from-roEdStart'
         elif got['stories'] and not same(got['end'], got['stories'][-1]['end']):
             sig = 'ro-end-differs-from-last-story-end'
         else:
             for g, st_flag in zip(got['stories'], (P.get('started') or []) + [None] * 9):
-                if st_flag and not step and not same(g['start'], STAMP_VALUES[1]):
+                if st_flag and not step and not same(g['start'], STAMP_VALUES[P.get('ststamp', 1)]):
                     sig = 'story-start-differs-from-StoryStarted'
     if sig is None:
         all_have = all(s['duration'] is not None for s in spec)
